@@ -65,6 +65,7 @@ type Registry struct {
 	ServerFilter         bool   // the referrers endpoint applies the artifactType filter
 	PageSize             int    // referrers page size, 0 = unpaged
 	TagPage              int    // tag listing page size enforced by the registry, 0 = unpaged
+	RepoPage             int    // _catalog page size enforced by the registry, 0 = unpaged
 	TagDelete            bool   // DELETE manifests/<tag> supported
 	Mount                bool   // cross-repository mount granted when the named source holds the blob
 	HeadDigest           bool   // HEAD/GET of a manifest carries Docker-Content-Digest
@@ -253,11 +254,17 @@ func (r *Registry) Do(c *reghttp.Client, ctx context.Context, req *reghttp.Req) 
 	u := req.DirectURL
 	if u == nil {
 		u = &url.URL{Scheme: "https", Host: r.Host, Path: "/v2/" + req.Repository + "/" + req.Path}
+		if req.Repository == "" {
+			u.Path = "/v2/" + req.Path
+		}
 		if req.Query != nil {
 			u.RawQuery = req.Query.Encode()
 		}
 	}
 	repo, kind, rest := split(u.Path)
+	if u.Path == "/v2/_catalog" {
+		repo, kind, rest = "", "catalog", ""
+	}
 	ev := Event{Method: req.Method, Repo: repo, Ref: rest, Query: u.RawQuery}
 	switch kind {
 	case "blobs":
@@ -270,6 +277,8 @@ func (r *Registry) Do(c *reghttp.Client, ctx context.Context, req *reghttp.Req) 
 		ev.Kind = "referrers"
 	case "tags":
 		ev.Kind = "tags"
+	case "catalog":
+		ev.Kind = "catalog"
 	default:
 		ev.Kind = "other"
 	}
@@ -308,6 +317,38 @@ func (r *Registry) Do(c *reghttp.Client, ctx context.Context, req *reghttp.Req) 
 	mutating := req.Method != "GET" && req.Method != "HEAD"
 	if mutating && r.ReadOnly {
 		return reply(403, nil, nil)
+	}
+	if kind == "catalog" {
+		if req.Method != "GET" {
+			return reply(404, nil, nil)
+		}
+		names := []string{}
+		for n, rp := range r.Repos {
+			if len(rp.Manifests) > 0 || len(rp.Blobs) > 0 {
+				names = append(names, n)
+			}
+		}
+		sort.Strings(names)
+		h := http.Header{"Content-Type": {"application/json"}}
+		if last := queryGet(u.RawQuery, "last"); last != "" {
+			i := 0
+			for i < len(names) && names[i] <= last {
+				i++
+			}
+			names = names[i:]
+		}
+		page := r.RepoPage
+		if n, err := strconv.Atoi(queryGet(u.RawQuery, "n")); err == nil && n > 0 && (page == 0 || n < page) {
+			page = n
+		}
+		if page > 0 && len(names) > page {
+			names = names[:page]
+			h.Set("Link", "</v2/_catalog?n="+strconv.Itoa(page)+"&last="+url.QueryEscape(names[page-1])+">; rel=\"next\"")
+		}
+		b, _ := json.Marshal(struct {
+			Repositories []string `json:"repositories"`
+		}{names})
+		return reply(200, h, b)
 	}
 	rp := r.Repo(repo)
 	switch kind {
